@@ -142,8 +142,8 @@ func (b *iptBackend) restart() {
 	})
 }
 
-func (b *iptBackend) setChain(name string, rules []body) {
-	b.table.UpdateChain(&generictables.Chain{Name: name, Rules: iptRules(rules)})
+func (b *iptBackend) setChain(name string, rules []body, force bool) {
+	b.table.UpdateChain(&generictables.Chain{Name: name, Rules: iptRules(rules), ForceProgramming: force})
 }
 func (b *iptBackend) removeChain(name string)            { b.table.RemoveChainByName(name) }
 func (b *iptBackend) setIns(chain string, rules []body)  { b.table.InsertOrAppendRules(chain, iptRules(rules)) }
